@@ -317,6 +317,12 @@ def collect(repo):
     import hashlib as _hl7
     stage7_ok = all(hasattr(M, n) and _hl7.sha256(body_of(getattr(M, n)).encode()).hexdigest()[:32] == h for n, h in FP7.items())
     if stage7_ok:
+        if hasattr(M, "_start_webmaster") and hasattr(M, "_end_webmaster") and body_of(M._start_webmaster) == "self.push('publisher', 1)" and \
+                body_of(M._end_webmaster) == "self.pop('publisher')\nself._sync_author_detail('publisher')":
+            KINDS4.update({"publisher": ("webmaster", "webmaster", ())})
+        if hasattr(M, "_start_itunes_owner") and hasattr(M, "_end_itunes_owner") and body_of(M._start_itunes_owner) == "self.inpublisher = 1\nself.push('publisher', 0)" and \
+                body_of(M._end_itunes_owner) == "self.pop('publisher')\nself.inpublisher = 0\nself._sync_author_detail('publisher')":
+            KINDS4.update({"owner": ("itunes_owner", "itunes_owner", ())})
         KINDS4.update({"author": ("author", "author", ()), "contributor": ("contributor", "contributor", ()), "name": ("name", "name", ()),
                        "email": ("email", "email", ()), "url": ("url", "url", ())})
     stage4 = []
